@@ -247,9 +247,10 @@ func doOp(f []string) (out string) {
 			out = append(out, 0xff, 0xff)
 		} else {
 			cid, ok := unhx(f[4])
-			if !ok || len(cid) > 32767 {
+			if !ok || len(cid) > 65535 {
 				return "bad-op"
 			}
+			// above 32767 the int16 length wraps, exactly as a careless writer's int16(len(s)) would
 			out = binary.BigEndian.AppendUint16(out, uint16(len(cid)))
 			out = append(out, cid...)
 		}
